@@ -81,7 +81,7 @@ impl Prop for C08 {
     "ASCII text T (0-14 tokens) and a consistent map M (0-8 sorted segments on char positions of T or the end \
      position, now and then a second segment at the same position so that the first has zero extent, 1-/4-/5-field, 1-3 sources, 0-3 names, contents absent/generic/identity, sourceRoot none/''/'rt'/'rt/'); \
      the same (T, M) is served by SourceMapSource and by a user-defined Source calling stream_chunks_default, with \
-     columns x final_source in {t,f}^2, and through map() of ConcatSource[sms, RawSource('')]; every byte is compared \
+     columns x final_source in {t,f}^2, and through map() of ConcatSource[sms, RawSource('')] and of ConcatSource[OriginalSource(1 or c characters), sms] (c: column of a segment of M on a later line); every byte is compared \
      with lookup(M) computed on the generated segment list. Non-trivial: M has >=2 segments on one line or a line \
      without segments between mapped lines, and >=1 unmapped byte and >=1 mapped byte; distinct by hash of the case JSON".into()
   }
@@ -145,6 +145,33 @@ impl Prop for C08 {
         let emap = enclosing.map(&opts(columns, false));
         let eat = attr_from_map(emap.as_ref(), t, columns)?;
         cmp("map() of an enclosing ConcatSource", t, &eat, &want, columns, &format!("mappings={:?}", emap.as_ref().map(|m| m.mappings().to_string())))?;
+        // (3b) ... behind a sibling that is mapped right up to the junction (no line break): the sibling is 1
+        // character long, or as long as the column of one of M's segments on a later line; the characters of T
+        // are looked up behind it (full columns only: with columns=false T's first line shares its generated
+        // line with the sibling and the line's first mapped segment is the sibling's)
+        if columns {
+          let mut heads: Vec<usize> = vec![1];
+          for sg in m.segs.iter().filter(|s| s.line >= 2 && s.col > 0) {
+            if !heads.contains(&(sg.col as usize)) && heads.len() < 3 {
+              heads.push(sg.col as usize);
+            }
+          }
+          for h in heads {
+            let head = "h".repeat(h);
+            let enclosing = ConcatSource::new([rspack_sources::OriginalSource::new(head.clone(), "head.js").boxed(), mk_sms().boxed()]);
+            let emap = enclosing.map(&opts(true, false));
+            let whole = format!("{head}{t}");
+            let eat = attr_from_map(emap.as_ref(), &whole, true)?;
+            cmp(
+              &format!("map() of ConcatSource[OriginalSource({head:?}), sms]"),
+              t,
+              &eat[h..],
+              &want,
+              true,
+              &format!("mappings={:?}", emap.as_ref().map(|m| m.mappings().to_string())),
+            )?;
+          }
+        }
         // (4) the user-defined source through the public helper: identical streams
         for final_source in [false, true] {
           let a = stream(&mk_sms(), &opts(columns, final_source));
